@@ -64,13 +64,14 @@ theorem C03_order_v20 (kind : SecName) (hk : kind ≠ .other) (m : Str) :
   have h3 : sectionOrders "2.0" "Curves" = some ("value:descr", []) := by decide
   have h4 : sectionOrders "2.0" "Parameter" = some ("value:descr", []) := by decide
   have hp : parseOrder "value:descr" = some .valueDescr := by decide
-  cases kind <;> simp_all [orderOf, secKey, ordersGet]
+  cases kind <;> simp_all [orderOf, secKey, ordersGet2, ordersGet]
 
-/-- the mnemonics written value-first in a 1.2 ~Well section -/
+/-- the mnemonics written value-first in a 1.2 ~Well section: STRT/STOP/STEP/NULL in any mixture of cases
+(the table lists the all-upper and all-lower spellings; a mnemonic is looked up as it is and then upper-cased) -/
 def wellValueFirst (m : Str) : Bool :=
-  ["STRT", "STOP", "STEP", "NULL", "strt", "stop", "step", "null"].any fun x => x.toList == m
+  ["STRT", "STOP", "STEP", "NULL", "strt", "stop", "step", "null"].any fun x => x.toList == upper m
 
-/-- version 1.2 ~Well: `MNEM.UNIT VALUE : DESCR` for STRT/STOP/STEP/NULL (upper or lower case),
+/-- version 1.2 ~Well: `MNEM.UNIT VALUE : DESCR` for STRT/STOP/STEP/NULL (any case),
 `MNEM.UNIT DESCR : VALUE` for every other mnemonic -/
 theorem C03_order_v12_well (m : Str) :
     orderOf "1.2" "Well" m = .ok (if wellValueFirst m then .valueDescr else .descrValue) := by
@@ -78,11 +79,12 @@ theorem C03_order_v12_well (m : Str) :
       [("value:descr", ["STRT", "STOP", "STEP", "NULL", "strt", "stop", "step", "null"])]) := by decide
   have hp : parseOrder "value:descr" = some .valueDescr := by decide
   have hq : parseOrder "descr:value" = some .descrValue := by decide
-  have hg : ordersGet [("value:descr", ["STRT", "STOP", "STEP", "NULL", "strt", "stop", "step", "null"])] m =
+  have hcl := List.all_eq_true.mp table_upper_closed _ (sectionOrders_mem h)
+  have hg : ordersGet [("value:descr", ["STRT", "STOP", "STEP", "NULL", "strt", "stop", "step", "null"])] (upper m) =
       if wellValueFirst m = true then some "value:descr" else none := by
     simp [ordersGet, wellValueFirst]
   unfold orderOf
-  simp only [h, hg]
+  simp only [h, ordersGet2_eq_upper _ hcl, hg]
   cases hwv : wellValueFirst m <;> simp [hp, hq]
 
 /-! ## conformant items -/
@@ -119,18 +121,18 @@ theorem C03_conf_of_text (kind : SecName) (o : Order) (it : WItem) (h : TextConf
 
 /-- **Item round trip, general form**: the fields as laid out satisfy C04's `Conf` (so in ~Parameter clock-time
 values and colons in the description are covered), the unit is neither purely numeric nor bracketed, and at
-least one blank separates unit and right-hand field. `hcase` is forced: the reader looks the order up under
-the CASE-MAPPED name (see `C03_counterexample_case_variant`). -/
+least one blank separates unit and right-hand field.  No hypothesis on the case map is needed any more: reader and
+writer look the order up case-insensitively (`C03_case_stable`; before the repair see
+`C03_counterexample_case_variant`). -/
 theorem C03_item_general (v : String) (kind : SecName) (c : MCase) (o : Order) (W : Widths) (it : WItem)
     (hkind : kind ≠ .other)
     (hw : orderOf v (secKey kind) it.orig = .ok o)
-    (hcase : orderOf v (secKey kind) (caseMap c it.orig) = orderOf v (secKey kind) it.orig)
     (hconf : Conf kind (lineFields o it))
     (hnum : it.unit = [] ∨ ¬ allDigits it.unit) (hbr : isBracketed it.unit = false)
     (hpad : rhsOf o it ≠ [] → 1 ≤ W.middle - it.unit.length - (rhsOf o it).length) :
     readItem v kind c (formatItem o W it) = some (expected c it) := by
   rw [formatItem_layout]
-  exact readItem_layout v kind c o it _ _ [' '] hkind hw hcase hconf hnum hbr
+  exact readItem_layout v kind c o it _ _ [' '] hkind hw hconf hnum hbr
     (blank_replicate _) (blank_replicate _) blank_one
     (by
       intro h1 h2
@@ -147,44 +149,35 @@ returns the original mnemonic under the case map, the unit, the value text and t
 theorem C03_item (v : String) (kind : SecName) (c : MCase) (o : Order) (W : Widths) (it : WItem)
     (hkind : kind ≠ .other)
     (hw : orderOf v (secKey kind) it.orig = .ok o)
-    (hcase : orderOf v (secKey kind) (caseMap c it.orig) = orderOf v (secKey kind) it.orig)
     (hconf : TextConf kind it)
     (hpad : 1 ≤ W.middle - it.unit.length - (rhsOf o it).length) :
     readItem v kind c (formatItem o W it) = some (expected c it) := by
   have ho : o = .descrValue → kind ≠ .curves := by
     rintro rfl rfl
     exact absurd (orderOf_fixed v "Curves" (Or.inl rfl) _ _ hw) (by decide)
-  exact C03_item_general v kind c o W it hkind hw hcase (C03_conf_of_text kind o it hconf ho)
+  exact C03_item_general v kind c o W it hkind hw (C03_conf_of_text kind o it hconf ho)
     hconf.unit_notnum hconf.unit_nobr (fun _ => hpad)
 
-/-- `hcase` holds trivially without case mapping … -/
-theorem C03_case_stable_preserve (v s : String) (m : Str) :
-    orderOf v s (caseMap .preserve m) = orderOf v s m := rfl
+/-- **Reader and writer agree under every `mnemonic_case`** (every version, every section, every mnemonic):
+the order found under the case-mapped name is the order found under the original one.  Rests on
+`upper (upper m) = upper m` and `upper (lower m) = upper m` for every string, and on the generated table being
+closed under `upper` (`table_upper_closed`). -/
+theorem C03_case_stable (v s : String) (c : MCase) (m : Str) :
+    orderOf v s (caseMap c m) = orderOf v s m := orderOf_caseMap v s c m
 
-/-- … for every case map in version 2.0 … -/
-theorem C03_case_stable_v20 (kind : SecName) (hk : kind ≠ .other) (c : MCase) (m : Str) :
-    orderOf "2.0" (secKey kind) (caseMap c m) = orderOf "2.0" (secKey kind) m := by
-  rw [C03_order_v20 kind hk, C03_order_v20 kind hk]
-
-/-- … and in a 1.2 ~Well section exactly when the case map does not move the mnemonic into or out of
-{STRT, STOP, STEP, NULL, strt, stop, step, null} -/
-theorem C03_case_stable_v12_well (c : MCase) (m : Str) :
-    orderOf "1.2" "Well" (caseMap c m) = orderOf "1.2" "Well" m ↔
-      wellValueFirst (caseMap c m) = wellValueFirst m := by
-  rw [C03_order_v12_well, C03_order_v12_well]
-  cases wellValueFirst (caseMap c m) <;> cases wellValueFirst m <;> simp
-
-/-- `hcase` is needed (genuine defect of the reader/writer pair): `Null` in a 1.2 ~Well section is written
-description-first (the writer looks up `Null`), but with `mnemonic_case='upper'` the reader looks up `NULL`
-and takes the description for the value. -/
+/-- **The repaired defect** (lasio 4979e47), documented on the OLD exact-key lookup `orderOfOld`: `Null` in a
+1.2 ~Well section was written description-first (the writer looked up `Null`), while with
+`mnemonic_case='upper'` the reader looked up `NULL` and took the description for the value.  With the
+two-step lookup both sides say value-first, and the written line reads back under every case map. -/
 theorem C03_counterexample_case_variant :
-    let it : WItem := ⟨"Null".toList, "Null".toList, [], .str "the value".toList, "the descr".toList⟩
-    orderOf "1.2" "Well" it.orig = .ok .descrValue ∧
-    formatItem .descrValue ⟨4, 10⟩ it = "Null. the descr : the value".toList ∧
-    readItem "1.2" .well .upper (formatItem .descrValue ⟨4, 10⟩ it) =
-      some ⟨"NULL".toList, [], "the descr".toList, "the value".toList⟩ ∧
-    readItem "1.2" .well .preserve (formatItem .descrValue ⟨4, 10⟩ it) = some (expected .preserve it) := by
-  dsimp only
+    orderOfOld "1.2" "Well" "Null".toList = .ok .descrValue ∧
+    orderOfOld "1.2" "Well" (caseMap .upper "Null".toList) = .ok .valueDescr ∧
+    orderOf "1.2" "Well" "Null".toList = .ok .valueDescr ∧
+    orderOf "1.2" "Well" (caseMap .upper "Null".toList) = .ok .valueDescr ∧
+    formatItem .valueDescr ⟨4, 10⟩ ⟨"Null".toList, "Null".toList, [], .str "the value".toList, "the descr".toList⟩ =
+      "Null. the value : the descr".toList ∧
+    readItem "1.2" .well .upper "Null. the value : the descr".toList =
+      some ⟨"NULL".toList, [], "the value".toList, "the descr".toList⟩ := by
   decide
 
 /-! ## sections -/
@@ -196,7 +189,6 @@ theorem C03_section (v : String) (kind : SecName) (c : MCase) (items : List WIte
     (hkind : kind ≠ .other)
     (hw : writeSection v (secKey kind) items = .ok lines)
     (hconf : ∀ it ∈ items, TextConf kind it)
-    (hcase : ∀ it ∈ items, orderOf v (secKey kind) (caseMap c it.orig) = orderOf v (secKey kind) it.orig)
     (hmark : ∀ it ∈ items, it.orig.head? ≠ some '#' ∧ it.orig.head? ≠ some '~') :
     readSection v kind c lines = some (items.map (expected c)) := by
   unfold writeSection at hw
@@ -234,7 +226,7 @@ theorem C03_section (v : String) (kind : SecName) (c : MCase) (items : List WIte
             rw [h1] at hwo
             exact absurd (orderOf_fixed v "Curves" (Or.inl rfl) _ _ hwo) (by decide)
           have hline := readLine_formatItem v kind c (ord it.orig) (sectionWidths ord items) it hkind hwo
-            (hcase it hit) (C03_conf_of_text kind _ it (hconf it hit) ho) (hconf it hit).unit_notnum
+            (C03_conf_of_text kind _ it (hconf it hit) ho) (hconf it hit).unit_notnum
             (hconf it hit).unit_nobr (fun _ => (C03_pad_ge_one ord items it hit).1) (hmark it hit)
           simp only [List.map_cons, readSection, hline, ih (fun x hx => hl x (by simp [hx])), Option.map_some]
       exact gen items (fun _ h => h)
@@ -357,8 +349,7 @@ example (c : MCase) :
     readItem "1.2" .well c (formatItem .descrValue ⟨6, 25⟩
       ⟨"DEPT".toList, "DEPT".toList, "M".toList, .str "1670.0".toList, "start (depth) \"x\"".toList⟩) =
       some ⟨caseMap c "DEPT".toList, "M".toList, "1670.0".toList, "start (depth) \"x\"".toList⟩ :=
-  C03_item "1.2" .well c .descrValue ⟨6, 25⟩ _ (by decide) (by decide)
-    (by cases c <;> decide) (C03_example_conf .well) (by decide)
+  C03_item "1.2" .well c .descrValue ⟨6, 25⟩ _ (by decide) (by decide) (C03_example_conf .well) (by decide)
 
 example : formatItem .descrValue ⟨6, 25⟩
     ⟨"DEPT".toList, "DEPT".toList, "M".toList, .str "1670.0".toList, "start (depth) \"x\"".toList⟩ =
@@ -374,9 +365,7 @@ example : formatItem .descrValue ⟨6, 25⟩
 #print axioms C03_conf_of_text
 #print axioms C03_item_general
 #print axioms C03_item
-#print axioms C03_case_stable_preserve
-#print axioms C03_case_stable_v20
-#print axioms C03_case_stable_v12_well
+#print axioms C03_case_stable
 #print axioms C03_counterexample_case_variant
 #print axioms C03_section
 #print axioms C03_writeSection_total
